@@ -12,7 +12,9 @@ PROP = "C13"
 IMPORTS = "From JV Require Import Lib.Base Model.Kwargs Model.KwargsGuard Model.C13KwargsFx Spec.KwargsSpec Corr.C13Judge."
 RULE = ("seeded random programs: 1-6 classes in hierarchies of depth 1-5 (single and multiple inheritance, C3-consistent, "
         "own or inherited __init__, overridable methods), 0-3 functions; bodies of kwargs.pop/get and at most one forwarding "
-        "call (super().__init__, function, class, self.method) with positional and hard-coded keyword arguments; names from "
+        "call (super().__init__, the two-argument super(C, self).__init__ incl. non-immediate C, function, class, self.method; "
+        "for some __init__ bodies written in the attribute form self._kw = kwargs + a consuming method in the class or an "
+        "ancestor) with positional and hard-coded keyword arguments; names from "
         "small pools so that collisions happen; programs that cannot be called successfully at all are discarded. Each "
         "program is written to real source files (four in ten split over two modules: a library with the first top-level items "
         "and a module with the rest that imports only the names its own text uses), resolved with get_signature_parameters and add_class_arguments, and "
@@ -29,7 +31,12 @@ TRUSTED = [
 ASSUMPTIONS = [
     "history: only resolutions of other callables of the SAME program earlier in the same process (get_signature_parameters "
     "on up to four of them, any order) are exercised; state carried over from other programs, threads, or parser objects is not",
-    "programs live in one or two modules; the second imports from the first only the names its own text uses",
+    "programs live in one or two modules; the second imports from the first only the names its own text uses; programs with "
+    "the two-argument super are written to one module only",
+    "attribute form (self._kw = kwargs, callee(**self._kw) in a method): judged as the forwarding call it stands for -- only where "
+    "both mean the same (store is the last statement of __init__, callee is a function/class/self.method, hard-coded names "
+    "are no pop/get keys, the class is not instantiated inside another __init__, the consuming method is not overridden); the "
+    "runner calls the consuming method right after construction. This equivalence is part of the trusted rendering",
     "only programs of the DSL: int/float/str annotations, literal defaults, **kwargs last, no *args, no decorators, "
     "no conditionals, at most one forwarding use of **kwargs per body",
     "CPython 3.12 keyword binding as modelled by Spec.call (validated per case against the interpreter)",
@@ -66,7 +73,33 @@ def lit(k, z):
     return {0: "%d" % z, 1: "%d.5" % z, 2: "'v%d'" % z}[k]
 
 
-def render_fn(name, fn, method):
+def call_text(s, kwname):
+    _, callee, npos, given = s[:4]
+    target = {"super": "super().__init__", "superof": "super(C%s, self).__init__", "func": "f%s", "class": "C%s",
+              "meth": "self.m%s"}[callee[0]]
+    if callee[0] != "super":
+        target = target % callee[1]
+    return "%s(%s)" % (target, ", ".join(["0"] * npos + ["%s=0" % g for g in given] + ["**" + kwname]))
+
+
+def attr_host(s, cls_idx):
+    """A forwarding call of an __init__ written in the documented attribute form: `self._kw<i> = kwargs` in the __init__
+    and `def a<i>(self): callee(.., **self._kw<i>)` in class s[4]["attr"] (the class itself or one of its ancestors)."""
+    return s[4]["attr"] if len(s) > 4 and s[4] and "attr" in s[4] else None
+
+
+def consumers(prog):
+    """host class -> [(storing class, call statement)]"""
+    res = {}
+    for i, c in enumerate(prog["classes"]):
+        if c["init"] is not None:
+            for s in c["init"]["body"]:
+                if s[0] == "call" and attr_host(s, i) is not None:
+                    res.setdefault(attr_host(s, i), []).append((i, s))
+    return res
+
+
+def render_fn(name, fn, method, cls_idx=None):
     ps = (["self"] if method else []) + [
         "%s: %s" % (n, TY[t]) + ("" if d is None else " = " + lit(*d)) for n, t, d in fn["params"]
     ]
@@ -79,12 +112,10 @@ def render_fn(name, fn, method):
             _, pop, n, k, z = s
             lines.append('%sv_%s = kwargs.%s("%s", %s)' % (ind, n, "pop" if pop else "get", n, lit(k, z)))
         else:
-            _, callee, npos, given = s
-            target = {"super": "super().__init__", "func": "f%s", "class": "C%s", "meth": "self.m%s"}[callee[0]]
-            if callee[0] != "super":
-                target = target % callee[1]
-            args = ["0"] * npos + ["%s=0" % g for g in given] + ["**kwargs"]
-            lines.append("%s%s(%s)" % (ind, target, ", ".join(args)))
+            if name == "__init__" and attr_host(s, cls_idx) is not None:
+                lines.append("%sself._kw%d = kwargs" % (ind, cls_idx))
+            else:
+                lines.append(ind + call_text(s, "kwargs"))
     if not fn["body"]:
         lines.append(ind + "pass")
     return "\n".join(lines)
@@ -100,9 +131,11 @@ def render(prog):
             head = "class C%d%s:" % (i, "(%s)" % ", ".join("C%d" % b for b in c["bases"]) if c["bases"] else "")
             body = []
             if c["init"] is not None:
-                body.append(render_fn("__init__", c["init"], True))
+                body.append(render_fn("__init__", c["init"], True, i))
             for m, fn in c["meths"]:
                 body.append(render_fn("m%d" % m, fn, True))
+            for j, st in consumers(prog).get(i, []):
+                body.append("    def a%d(self):\n        %s" % (j, call_text(st, "self._kw%d" % j)))
             if not body:
                 body.append("    pass")
             out.append(head + "\n" + "\n\n".join(body))
@@ -123,9 +156,13 @@ def _refs(prog, items):
             c = prog["classes"][i]
             names += ["C%d" % b for b in c["bases"]]
             fns += ([c["init"]] if c["init"] is not None else []) + [f for _, f in c["meths"]]
+            for _, st in consumers(prog).get(i, []):
+                fns.append({"body": [st[:4]]})
     for fn in fns:
         for s in fn["body"]:
-            if s[0] == "call" and s[1][0] in ("func", "class"):
+            if s[0] == "call" and len(s) > 4 and s[4]:
+                continue  # written in the hosting class
+            if s[0] == "call" and s[1][0] in ("func", "class", "superof"):
                 names.append(("f%d" if s[1][0] == "func" else "C%d") % s[1][1])
     return list(dict.fromkeys(names))
 
@@ -159,7 +196,8 @@ def g_fn(fn):
             body.append("SPG %s %s %s %s" % (g_bool(s[1]), g_str(s[2]), g_N(s[3]), g_Z(s[4])))
         else:
             c = s[1]
-            k = {"super": "KSuper", "func": "(KFunc %s)", "class": "(KClass %s)", "meth": "(KMeth %s)"}[c[0]]
+            k = {"super": "KSuper", "superof": "(KSuperOf %s)", "func": "(KFunc %s)", "class": "(KClass %s)",
+                 "meth": "(KMeth %s)"}[c[0]]
             if c[0] != "super":
                 k = k % g_nat(c[1])
             body.append("SCall %s %s %s" % (k, g_nat(s[2]), g_list([g_str(x) for x in s[3]], "str")))
@@ -272,6 +310,13 @@ def visible_params(prog, callee, cls_idx, cache):
                 if prog["classes"][mro[k]]["init"] is not None:
                     return prog["classes"][mro[k]]["init"], (mro, k)
             return None
+        if c[0] == "superof" and ctx:
+            mro, idx = ctx
+            if c[1] in mro:
+                for k in range(mro.index(c[1]) + 1, len(mro)):
+                    if prog["classes"][mro[k]]["init"] is not None:
+                        return prog["classes"][mro[k]]["init"], (mro, k)
+            return None
         if c[0] == "meth" and ctx:
             mro, idx = ctx
             for k, ci in enumerate(mro):
@@ -321,6 +366,8 @@ def gen_fn(rng, prog, cls_idx, is_init, cache, kw_prob=0.8):
     if cls_idx is not None and is_init:
         callees += [["super"]] * 6
         mro = py_mro(prog, cls_idx, cache) or []
+        # the documented two-argument form, own class or a non-immediate one: super(C<k>, self).__init__(**kwargs)
+        callees += [["superof", k] for k in rng.sample(mro, min(2, len(mro)))]
         ms = sorted({m for ci in mro for m, _ in prog["classes"][ci]["meths"]})
         callees += [["meth", m] for m in ms] * 2
     callees += [["func", i] for i in range(len(prog["funcs"]))]
@@ -587,6 +634,56 @@ def gen_prog(rng):
     return prog
 
 
+def superofy(rng, prog):
+    """Rewrite some zero-argument super() calls as super(C<k>, self) with C<k> the class itself or any class of its MRO
+    (the non-immediate form skips the classes in between)."""
+    cache = {}
+    for i, c in enumerate(prog["classes"]):
+        if c["init"] is None:
+            continue
+        for s in c["init"]["body"]:
+            if s[0] == "call" and s[1] == ["super"] and rng.random() < 0.35:
+                mro = py_mro(prog, i, cache) or [i]
+                skipping = mro[1:3]   # non-immediate: continue after a parent / grandparent
+                s[1] = ["superof", rng.choice(skipping) if skipping and rng.random() < 0.6 else i]
+
+
+def attrify(rng, prog):
+    """Rewrite some forwarding calls of __init__ bodies in the documented attribute form (self._kw = kwargs in __init__,
+    the call with **self._kw in a method of the class or of one of its ancestors). Only where the two forms mean the same
+    for resolver and interpreter alike: the call is the last statement, goes to a function / class / self.method, its
+    hard-coded names are no pop/get keys, and the class is never instantiated inside another __init__ (the consuming
+    method is called by the runner right after construction of the outer object)."""
+    cache = {}
+    inner = set()
+    fns = list(prog["funcs"])
+    for c in prog["classes"]:
+        fns += ([c["init"]] if c["init"] is not None else []) + [f for _, f in c["meths"]]
+    for fn in fns:
+        for s in fn["body"]:
+            if s[0] == "call" and s[1][0] == "class":
+                inner.update(py_mro(prog, s[1][1], cache) or [s[1][1]])
+    pos = {tuple(it): n for n, it in enumerate(prog["order"])}
+    for i, c in enumerate(prog["classes"]):
+        init = c["init"]
+        if init is None or not init["kw"] or not init["body"] or i in inner:
+            continue
+        s = init["body"][-1]
+        if s[0] != "call" or s[1][0] not in ("func", "class", "meth") or len(s) > 4:
+            continue
+        if set(s[3]) & {t[2] for t in init["body"] if t[0] == "pg"} or rng.random() < 0.5:
+            continue
+        hosts = [i]
+        for h in (py_mro(prog, i, cache) or [i])[1:]:
+            if s[1][0] == "meth" or pos[("f" if s[1][0] == "func" else "c", s[1][1])] < pos[("c", h)]:
+                hosts.append(h)
+        s.append({"attr": rng.choice(hosts) if rng.random() < 0.6 else i})
+
+
+def has_superof(prog):
+    return any(s[0] == "call" and s[1][0] == "superof" for c in prog["classes"] if c["init"] for s in c["init"]["body"])
+
+
 def runnable(prog, target):
     """Some keyword set makes the real interpreter accept the call (the program itself is not broken)."""
     ns = {}
@@ -599,7 +696,10 @@ def runnable(prog, target):
     for k in range(len(req) + 1):
         for s in itertools.combinations(req, k):
             try:
-                cls(**{n: 0 for n in s})
+                obj = cls(**{n: 0 for n in s})
+                for a in sorted(a for a in dir(obj) if a[0] == "a" and a[1:].isdigit()):
+                    if hasattr(obj, "_kw" + a[1:]):
+                        getattr(obj, a)()   # the consuming method of the attribute form
                 return True
             except TypeError:
                 pass
@@ -614,7 +714,9 @@ def mk_case(rng, prog, target):
     # the split point is anywhere that leaves the target class in the second file
     order = prog["order"]
     pos = order.index(["c", target])
-    if "lib" in prog and prog["lib"] <= pos:
+    if has_superof(prog):
+        pass   # two-argument super: one module only (the name is looked up in the module of the class being resolved)
+    elif "lib" in prog and prog["lib"] <= pos:
         if rng.random() < 0.8:
             case["split"] = prog["lib"]
     elif pos >= 1 and rng.random() < 0.4:
@@ -705,6 +807,10 @@ def generate(rng, tier):
     while len(cases) < want and tries < want * 20:
         tries += 1
         prog = gen_prog(rng)
+        if rng.random() < 0.3:
+            superofy(rng, prog)
+        if rng.random() < 0.3:
+            attrify(rng, prog)
         n = len(prog["classes"])
         targets = [n - 1] + ([rng.randrange(n)] if n > 1 and rng.random() < 0.3 else [])
         for t in dict.fromkeys(targets):
@@ -809,6 +915,21 @@ def shrink(case):
             yield c
 
 
+def search(rng, tier, broken):
+    """Failing-input search after a broken proof / tie: ONE fresh quick-sized batch, judged once (bounded, <= ~60 s)."""
+    import sys
+    from tie import framework as fw
+    cases = generate(rng, "quick")
+    obs = observe(cases)
+    bad_model, bad_in, bad_out = fw.judge_cases(sys.modules[__name__], cases, obs, tag="x")
+    known = fw.load_known_findings(PROP)
+    bad = sorted(set(bad_in) | {i for i, k in bad_out if FINDING_CLASSES.get(k) not in known}) or sorted(bad_model)
+    if not bad:
+        return None
+    i = bad[0]
+    return {"case": cases[i], "observed": obs[i], "explain": describe(cases[i], obs[i])}
+
+
 def _shrink(case):
     import copy
     prog = case["prog"]
@@ -843,7 +964,8 @@ def _shrink(case):
 META = {
     "level_text": "Proved in Rocq for every program of a DSL of Python sources (class hierarchies of any depth and width with C3 "
                   "linearisation, own or inherited __init__, functions, methods; bodies of kwargs.pop/get and one forwarding call "
-                  "super().__init__/f/C/self.m with positional and hard-coded keyword arguments), by induction on the call-chain "
+                  "super().__init__ / super(C, self).__init__ (own or non-immediate class) / f / C / self.m with positional and "
+                  "hard-coded keyword arguments), by induction on the call-chain "
                   "fuel, relating two executable semantics: the resolver's algorithm (coq/Model/Kwargs.v, written in the shape of "
                   "_parameter_resolvers.py, bugs included) and CPython's keyword binding (coq/Spec/KwargsSpec.v). "
                   "C13_resolver_sound(_frame): under the executable hypothesis klass_top = 0, calling the class with any duplicate-free "
